@@ -109,8 +109,10 @@ def gen_unary(rng, cx=False):
         if name == "abs":
             for r in (0, 2):
                 yield case("abs", [A(rng, shape_of_rank(rng, r), d, cx)], form="operator")
-        if name in ("conj", "conjugate") and False:
-            pass
+        if cx:
+            # complex dtype whose imaginary parts are exactly zero (real data that became complex on the way)
+            for shp in ((3,), (2, 2)):
+                yield case(name, [onp.abs(A(rng, shp, dom, False)).astype(complex)], tags=["zero_imag"])
     # kinks: abs/absolute/fabs at exact zeros
     if not cx:
         for name in ("abs", "absolute", "fabs"):
